@@ -52,7 +52,7 @@ func init() {
 								if mode == "gated" {
 									g = 1
 								}
-								out = append(out, Case{Family: "shutdown", Seed: rng.Int63(), Cfg: cfg, P: map[string]int{"tunnels": nt, "step": step, "late": late, "gated": g, "stop": (step + late + r) % 2}})
+								out = append(out, Case{Family: "shutdown", Seed: rng.Int63(), Cfg: cfg, P: map[string]int{"tunnels": nt, "step": step, "late": late, "gated": g, "stop": (step + late + r) % 2, "parksent": (step + late/2 + r) % 2}})
 							}
 						}
 					}
@@ -84,7 +84,19 @@ func inflightSpecs() []*RPCSpec {
 func famShutdown(w *World, c *Case, rng *rand.Rand) {
 	nt, step, late := c.p("tunnels", 1), c.p("step", 0), c.p("late", 0)
 	gated := c.p("gated", 0) == 1
-	w.SigExtra = fmt.Sprintf("nt%d/step%d/late%d/g%v", nt, step, late, gated)
+	w.SigExtra = fmt.Sprintf("nt%d/step%d/late%d/g%v/ps%d", nt, step, late, gated, c.p("parksent", 0))
+	if c.p("parksent", 0) == 1 {
+		// the goroutine starting an RPC is held right after its new_stream
+		// frame went out, for longer than a round trip: the peer's answer (a
+		// refusal, after shutdown) is processed before the caller continues
+		ds := make([]time.Duration, 64)
+		for i := range ds {
+			if rng.Intn(3) != 0 {
+				ds[i] = 5 * time.Millisecond
+			}
+		}
+		w.installYield(&YieldPlan{Parks: map[string][]time.Duration{"client.newStream.sent": ds}})
+	}
 	var ch grpc.ClientConnInterface
 	var rs *grpctunnel.ReverseTunnelServer
 	var chans []grpctunnel.TunnelChannel
